@@ -120,12 +120,17 @@ def section10():
                "properties that own the code, C11 (conj_moreau and the Conj streams) and C14. 23 seeded patches were re-based after "
                "later `fix:` commits touched the same lines (same change, demo re-verified both ways).\n")
     out.append("**Behaviour-preserving changes** (`harmless/`, 60 refactorings by independent agents, each with an equivalence program "
-               "whose SHA-256 over all results is identical on the clean and the patched checkout; `harmless/RESULTS.md`): 19 leave the "
-               "check quiet, 41 make a translate / theorem / build obligation fail and are reported as `no-failing-input-found` naming "
-               "that obligation (mostly the fail-closed translators: an extracted helper, a hoisted temporary or a positional -> keyword "
-               "respelling is outside the accepted subset), and NONE produces a failing input. One first appeared to (C15-1): the x4 "
-               "search budget of a broken run reached an SDMM instance whose only constraint matrix was all zeros - the recorded SDMM "
-               "finding, not the refactoring - which is why that class is now classified with the finding's key.\n")
+               "whose SHA-256 over all results is identical on the clean and the patched checkout; `harmless/RESULTS.md`). First measurement: "
+               "19 left the check quiet, 41 made a translate / theorem / build obligation fail and were reported as "
+               "`no-failing-input-found` (the fail-closed translators pinned the spelling: an extracted helper, a hoisted temporary or a "
+               "positional -> keyword respelling was outside the accepted subset), none produced a failing input (one first appeared to, "
+               "C15-1: the x4 search budget of a broken run reached an SDMM instance whose only constraint matrix was all zeros - the "
+               "recorded SDMM finding, not the refactoring - which is why that class is now classified with the finding's key). A "
+               "robustness wave then put source normalisers in front of every translator and re-proved shape-sensitive bridging lemmas "
+               "(§2.2); each agent had to show that every seeded breaking change of its property is still reported with a failing "
+               "input and tried further breaking edits through the new code paths. Final measurement (HARMLESS_SUMMARY): the remaining "
+               "non-quiet refactoring is C15-2 (`_done` of ConjugateGradient written as if / elif / else: `Gen.C12.done` changes shape "
+               "and two C12 / C15 theorems no longer elaborate - reported as `no-failing-input-found`).\n".replace("HARMLESS_SUMMARY", harmless_summary()))
     out.append("The builders' own hand-made breaking edits (8–27 per property, the **X** lists of §3 and subtler ones) are listed in "
                "their reports; the pattern is the same: edits inside translator-covered code break named theorems or the translate "
                "obligation *and* are found by the search; edits in hand-modelled code are found by correspondence + search; edits that "
@@ -142,6 +147,16 @@ OBSERVATIONS = ("Observations judged outside the properties' domains (not findin
                 "coordinates / parameters, which were repaired) are truncated or rejected by interpolate, nufft and the wavelet transform — "
                 "the properties quantify over real and complex data; `Linop._check_ishape` zips the shapes, so an input with extra trailing "
                 "axes passes the guard (stated exactly by `C03.gen_call_accepts_iff`).")
+
+
+def harmless_summary():
+    try:
+        r = json.load(open(os.path.join(HERE, "harmless", "RESULTS.json")))
+    except Exception:  # noqa
+        return "no harmless/RESULTS.json"
+    import collections
+    c = collections.Counter(x.get("outcome", "error") for x in r)
+    return "%d quiet, %d no-failing-input-found, %d with a failing input, of %d" % (c.get("quiet", 0), c.get("unproved", 0), c.get("FALSE-ALARM", 0), len(r))
 
 
 def section11():
